@@ -418,6 +418,28 @@ class Executor:
                 falls += f
                 done += d
             return falls, done
+        if isinstance(s, ast.For) and literal_elements(subst(s.iter, st.env)) is not None:
+            # a loop over a literal table (after substitution of hoisted constants): unrolled exactly, element by element
+            states, done, after = [st.fork()], [], []
+            for el in literal_elements(subst(s.iter, st.env)):
+                nxt = []
+                for s2 in states:
+                    s2 = s2.fork()
+                    self._assign(s.target, el, s2, None)
+                    f, d = self.block(s.body, [s2], depth)
+                    nxt += f
+                    for oc in d:
+                        if oc.kind == "continue":
+                            nxt.append(oc.state)
+                        elif oc.kind == "break":
+                            after.append(oc.state)
+                        else:
+                            done.append(oc)
+                states = nxt
+            if s.orelse:
+                states, d = self.block(s.orelse, states, depth)
+                done += d
+            return states + after, done
         if isinstance(s, (ast.For, ast.AsyncFor, ast.While)):
             falls, done = [st.fork()], []  # zero iterations
             if isinstance(s, ast.While):
@@ -486,6 +508,20 @@ class Executor:
                 return
         for i, x in enumerate(x for x in ast.walk(target) if isinstance(x, ast.Name)):
             st.env[x.id] = ast.Subscript(value=base, slice=ast.Name(id=f"{x.id}§", ctx=ast.Load()), ctx=ast.Load())
+
+
+def literal_elements(it, limit=16):
+    """Elements a `for` yields when it iterates a literal list / tuple / dict (`d`, `d.keys()`, `d.values()`, `d.items()`), else None."""
+    how = None
+    if isinstance(it, ast.Call) and isinstance(it.func, ast.Attribute) and it.func.attr in ("items", "keys", "values") and not it.args and not it.keywords:
+        how, it = it.func.attr, it.func.value
+    if isinstance(it, ast.Dict) and all(k is not None for k in it.keys) and len(it.keys) <= limit:
+        if how == "items":
+            return [ast.Tuple(elts=[k, v], ctx=ast.Load()) for k, v in zip(it.keys, it.values)]
+        return list(it.values) if how == "values" else list(it.keys)
+    if how is None and isinstance(it, (ast.List, ast.Tuple)) and len(it.elts) <= limit and not any(isinstance(x, ast.Starred) for x in it.elts):
+        return list(it.elts)
+    return None
 
 
 def _fresh(v) -> bool:
